@@ -9,11 +9,12 @@ the hub works with `time.Now().Unix()` = `now / 1000`; durations are millisecond
 goroutines at the whole second `nowS`.
 
 Go facts mirrored here:
-* `historyHub.add`: optional delta read (`getLocked` with `Limit 1, Reverse`, which itself
-  refreshes the meta deadline and **creates** a missing stream); then the version check
+* `historyHub.add`: first the version check
   (`Version > 0`, stream exists, `VersionEpoch == "" || == topVersionEpoch`, `Version <= topVersion`
-  ⇒ skip, returning the current top position; since /repo commit e5e52fd9 this precedes the
-  deadline refreshes); then the data deadline `expires[ch] = now + ttl` is (re)written and a queue
+  ⇒ skip, returning the current top position; since /repo commits e5e52fd9 and 43a5eb1b this
+  precedes the deadline refreshes and the delta read); then the optional delta read (`getLocked`
+  with `Limit 1, Reverse`, which itself refreshes the meta deadline and **creates** a missing
+  stream); then the data deadline `expires[ch] = now + ttl` is (re)written and a queue
   item is pushed only when the channel had no `expires` entry; then the meta deadline likewise
   (`opts.HistoryMetaTTL`, or the hub default when that is 0; nothing when the result is ≤ 0); then
   `stream.Add` (creating the stream with a fresh epoch when missing).
@@ -31,7 +32,9 @@ Go facts mirrored here:
   popped again in the same pass); `next…Check` becomes the smallest remaining priority (0 if none).
   Consequence kept by the model: a deadline *shortened* by a later publish does not take effect
   before the queued item's (older, later) priority.
-* result cache: key `ch + "_" + idempotencyKey` (plain concatenation); an entry is a hit while
+* result cache: key `resultCacheKey(ch, key) = strconv.Itoa(len(ch)) + "_" + ch + "_" + key`
+  (byte length prefix; injective — since /repo commit 1b02042a, before that the plain concatenation
+  `ch + "_" + key`); an entry is a hit while
   `ExpireAt > now` (ms); saved with `ExpireAt = now + secs*1000`, `secs = int64(ttl.Seconds())`, or
   300 when the TTL option is 0.
 * `Publish`: idempotency hit ⇒ cached position, suppressed, nothing else happens.  With
@@ -169,8 +172,9 @@ def Hub.versionSkip (h : Hub) (ch : String) (o : PubOpts) : Option Pos :=
   | none => none
 
 /-- the storing tail of `historyHub.add` (`stream.Add`, creating the stream when missing).  It
-repeats the version check, which can no longer succeed where `Hub.add` calls it (the deadline
-refreshes in between do not touch streams). -/
+repeats the version check, which can no longer succeed where `Hub.add` calls it (the delta read
+and the deadline refreshes in between do not change an existing stream, and a stream created by
+the delta read has version 0). -/
 def Hub.addCore (h : Hub) (ch : String) (pub : Pub) (o : PubOpts) (prev : Option (Item Pub)) :
     Hub × AddOut :=
   let c := h.chans ch
@@ -194,12 +198,13 @@ def Hub.deltaRead (h : Hub) (ch : String) (o : PubOpts) (nowS : Nat) : Hub × Op
     (r.1, r.2.1.head?)
   else (h, none)
 
-/-- `historyHub.add`: delta read, version check, deadline refreshes, `stream.Add` -/
+/-- `historyHub.add`: version check, delta read, deadline refreshes, `stream.Add` -/
 def Hub.add (h : Hub) (ch : String) (pub : Pub) (o : PubOpts) (nowS : Nat) : Hub × AddOut :=
-  let hp := h.deltaRead ch o nowS
-  match hp.1.versionSkip ch o with
-  | some p => (hp.1, ⟨p, none, true⟩)
-  | none => ((hp.1.touchExpire ch o.ttl nowS).touchMeta ch o.metaTTL nowS).addCore ch pub o hp.2
+  match h.versionSkip ch o with
+  | some p => (h, ⟨p, none, true⟩)
+  | none =>
+    let hp := h.deltaRead ch o nowS
+    ((hp.1.touchExpire ch o.ttl nowS).touchMeta ch o.metaTTL nowS).addCore ch pub o hp.2
 
 /-- `historyHub.remove` -/
 def Hub.remove (h : Hub) (ch : String) : Hub :=
@@ -281,7 +286,8 @@ structure Broker where
 
 def Broker.init (metaTTL : Nat) : Broker := { hub := { metaTTL := metaTTL } }
 
-def cacheKey (ch key : String) : String := ch ++ "_" ++ key
+/-- `resultCacheKey`: `strconv.Itoa(len(ch)) + "_" + ch + "_" + key` (`len` = byte length) -/
+def cacheKey (ch key : String) : String := toString ch.utf8ByteSize ++ "_" ++ ch ++ "_" ++ key
 
 /-- `getResultFromCache` -/
 def Broker.cacheGet (b : Broker) (ch key : String) (now : Nat) : Option Pos :=
